@@ -334,3 +334,37 @@ pub fn observe_store(
         ));
     }
 }
+
+/// records the value kinds of a model document (top level and nested inside JSON)
+pub fn observe_kinds(rep: &mut Report, d: &MDoc) {
+    fn rec(rep: &mut Report, v: &MV, depth: usize) {
+        match v {
+            MV::Arr(a) => {
+                rep.observe("value_kind", if a.is_empty() { "nested:empty-array" } else { "nested:array" });
+                for x in a {
+                    rec(rep, x, depth + 1);
+                }
+            }
+            MV::Obj(o) => {
+                if depth > 0 {
+                    rep.observe("value_kind", if o.is_empty() { "nested:empty-object" } else { "nested:object" });
+                } else if o.is_empty() {
+                    rep.observe("value_kind", "empty-object");
+                }
+                for (_, x) in o {
+                    rec(rep, x, depth + 1);
+                }
+            }
+            other if depth > 0 => rep.observe("value_kind", format!("nested:{}", other.kind_name())),
+            _ => {}
+        }
+        if depth == 64 {
+            rep.observe("value_kind", "nested:depth>=64");
+        }
+    }
+    rep.observe("doc_profile", d.profile);
+    for (_, v) in &d.vals {
+        rep.observe("value_kind", v.kind_name());
+        rec(rep, v, 0);
+    }
+}
